@@ -15,10 +15,14 @@ chk.extra['rule'] = ('grammar-directed generator of whole .ff/.itp/.map/.mapping
                      'injected (the real reader must raise); component cases (tokenizer, prefix/order, arity, weights, '
                      'macros) are non-trivial when they contain a brace, a prefix or explicit order, a "--" delimiter, '
                      'a "!" marker or repeated target, a "$" respectively; .itp files carry #ifdef pragmas, .map and .mapping files '
-                     'are generated against toy force fields and compared through the driver; distinct = distinct protocol line')
+                     'are generated against toy force fields and compared through the driver; directories: 2-4 generated .ff files '
+                     '(colliding names) plus distractor entries in a real temporary directory loaded with ForceField(directory) under '
+                     'the natural and under permuted enumeration orders, mapping directory trees with .map / .mapping files at '
+                     'several depths, find_force_fields libraries; int() spellings (+n, 0n, n_m, n\\f) in index / resid / count '
+                     'columns; distinct = distinct protocol line')
 quiet_vermouth_logs()
 TABLES = c13_extract.extract()
-chk.lean(['VermouthProps.C13', 'VermouthProps.C13Tables', 'VermouthProps.C13Maps'], 'driver_c13',
+chk.lean(['VermouthProps.C13', 'VermouthProps.C13Tables', 'VermouthProps.C13Maps', 'VermouthProps.C13Dir', 'VermouthProps.C13Maps2'], 'driver_c13',
          generated={'C13Tables.lean': c13_extract.render(TABLES)})
 
 import vermouth
@@ -28,6 +32,7 @@ from vermouth.gmx.itp_read import read_itp, ITPDirector
 from vermouth.forcefield import ForceField
 from vermouth.molecule import Link, Choice, NotDefinedOrNot, LinkParameterEffector
 import c13_mapping
+import c13_dir
 quiet_vermouth_logs()
 
 KNOWN_IDS = {k['id'] for k in chk.known if k.get('status') == 'known'}
@@ -93,9 +98,37 @@ def canon_nodes(g):
     return [[str(k), canon_attrs(g.nodes[k])] for k in g.nodes]
 
 
+ATOM_COLS = ('atype', 'resname', 'resid', 'charge_group')
+
+
+def atom_cols(b):
+    """the declared columns of the atoms of a block as loaded"""
+    return [[repr_j(b.nodes[n][k]) if k in b.nodes[n] else '-' for k in ATOM_COLS] for n in b.nodes]
+
+
+def spell_int(rng, n):
+    """one of the spellings int() accepts for n >= 0"""
+    k = rng.random()
+    if k < 0.75:
+        return str(n)
+    if k < 0.82:
+        return '+%d' % n
+    if k < 0.89:
+        return '0%d' % n
+    if k < 0.94:
+        return '0_%d' % n if n < 10 else '%d_%d' % (n // 10, n % 10)
+    if k < 0.97:
+        return '%d\x0c' % n           # a form feed is not a separator for _tokenize; int() skips it
+    return '-0' if n == 0 else '00%d' % n
+
+
 def dump_ff(ff):
-    blocks = [[k, [str(n) for n in b.nodes], canon_inters(b.interactions)] for k, b in ff.blocks.items()]
-    links = [[canon_nodes(l), canon_inters(l.interactions), canon_inters(l.removed_interactions)] for l in ff.links]
+    blocks = [[k, [str(n) for n in b.nodes], canon_inters(b.interactions), atom_cols(b), b.nrexcl]
+              for k, b in ff.blocks.items()]
+    links = [[canon_nodes(l), canon_inters(l.interactions), canon_inters(l.removed_interactions),
+              [[str(k), canon_attrs(a)] for k, a in l.non_edges],
+              [[[str(ref), canon_attrs(a)] for ref, a in pat] for pat in l.patterns],
+              sorted(l.features)] for l in ff.links]
     mods = [[k, canon_nodes(m), canon_inters(m.interactions)] for k, m in ff.modifications.items()]
     return [blocks, links, mods]
 
@@ -430,6 +463,53 @@ def run_subst():
 
 
 # ----------------------------------------------------------------------------------------------
+# 5b. int(): the spellings of atom indices, resids, charge groups, nrexcl, weights
+# ----------------------------------------------------------------------------------------------
+_INT_RE = re.compile(r'^[ \t\n\r\x0b\x0c]*[+-]?[0-9]+(_[0-9]+)*[ \t\n\r\x0b\x0c]*\Z')
+
+
+def run_pyint():
+    """the model's `pyInt?` against CPython's int(str) (what the readers call on index / resid / count
+    tokens); the oracle states the grammar as a regular expression; non-ASCII input (which int() also
+    accepts: any Unicode decimal digit, Unicode blanks) is outside the model and only recorded"""
+    rng = chk.rng('pyint')
+    cases = ['1', '+1', '-1', '007', '1_0', '1_000_000', '_1', '1_', '1__0', '+_1', '-', '+', '', ' ', ' 7 ', '\t7\n', '7\x0b',
+             '\x1f7\x1c', '+ 7', '7 7', '0x10', '1e3', '1.0', '--1', '+-1', '-+1', '1-', '0', '-0', '+0', '00', '0_0', '1_2_3',
+             '١', '٣', '1٣', '²', '７', '1\u2009', '\xa07', '1\x85']
+    alpha = ['0', '1', '9', '_', '+', '-', ' ', '\t', '\x1f', 'x', '.']
+    for _ in range(20000 if chk.thorough else 2500):
+        k = rng.random()
+        if k < 0.5:
+            cases.append(''.join(rng.choice(alpha) for _ in range(rng.randint(0, 6))))
+        else:
+            body = '_'.join(''.join(rng.choice('0123456789') for _ in range(rng.randint(1, 3))) for _ in range(rng.randint(1, 3)))
+            t = rng.choice(['', ' ', '\t']) + rng.choice(['', '', '+', '-']) + body + rng.choice(['', ' ', '\x0c'])
+            if rng.random() < 0.25 and t:
+                j = rng.randrange(len(t))
+                t = t[:j] + rng.choice(['_', '+', ' ', '']) + t[j + (rng.random() < 0.5):]
+            cases.append(t)
+    ascii_cases = [c for c in cases if c.isascii()]
+    models = dict(zip(ascii_cases, ask([line('pyint', c) for c in ascii_cases])))
+    for i, c in enumerate(cases):
+        try:
+            im = 'ok %d' % int(c)
+        except ValueError:
+            im = 'error'
+        if not c.isascii():
+            chk.count('pyint_nonascii_excluded_' + im.split()[0])
+            chk.case('pyint-%d' % i, line('pyint', c), im, None, [], False)
+            continue
+        errs = []
+        ok = bool(_INT_RE.match(c))
+        if ok != (im != 'error'):
+            errs.append('int(%r) -> %s, the grammar [ws][+-]digits(_digits)*[ws] says %s' % (c, im, 'accept' if ok else 'reject'))
+        elif ok and int(c) != int(c.strip(' \t\n\r\x0b\x0c').replace('_', '').lstrip('+-') or '0') * (-1 if '-' in c else 1):
+            errs.append('int(%r) has the wrong value' % c)
+        chk.count('pyint_' + im.split()[0])
+        chk.case('pyint-%d' % i, line('pyint', c), im, models[c], errs, '_' in c or '+' in c or c != c.strip())
+
+
+# ----------------------------------------------------------------------------------------------
 # 6. whole .ff files: generator with AST
 # ----------------------------------------------------------------------------------------------
 NATOMS = dict(TABLES['natoms'])
@@ -528,6 +608,45 @@ class Gen:
                 self.emit('%s %s' % (name, value))
             self.macros[name] = value
 
+    def macro_twins(self):
+        """the same macros defined, used, REDEFINED and used again in lines that are textually identical to the
+        first ones: every line must be loaded with the value in force where it is written"""
+        r = self.rng
+        self.serial += 1
+        tag = 'T%d' % self.serial
+        for rnd in range(r.randint(2, 3)):
+            kb = r.choice(['1250', '7500', '0.33', '17'])
+            res = r.choice(['ALA', 'GLY', 'SER', 'ALA|GLY'])
+            self.header('macros')
+            self.emit('tk %s' % kb)
+            self.emit('tr %s' % json.dumps(res))
+            self.macros['tk'], self.macros['tr'] = kb, json.dumps(res)
+            if r.random() < 0.7:
+                name = '%sB%d' % (tag, rnd)
+                self.header('moleculetype')
+                self.emit('%s 1' % name, blockname=name)
+                self.header('atoms')
+                self.emit('1 P5 1 TW TA 1')
+                self.emit('2 P5 1 TW TB 2')
+                self.header('bonds')
+                self.emit('TA TB 1 0.31 $tk')
+                cols = [[repr_j('P5'), repr_j('TW'), repr_j(1), repr_j(q)] for q in (1, 2)]
+                self.blocks[name] = [name, ['TA', 'TB'], [['bonds', ['TA', 'TB'], ['1', '0.31', kb], []]], cols, 1]
+                self.kinds.append('block')
+            self.header('link')
+            self.emit('resname $tr')
+            self.header('bonds')
+            self.emit('TA +TB 1 0.35 $tk')
+            self.header('non-edges')
+            self.emit('TA TC')
+            wide = as_loaded({'resname': res})
+            nodes = [['TA', canon_attrs(dict(wide, order=0, atomname='TA'))], ['+TB', canon_attrs(dict(wide, order=1, atomname='TB'))]]
+            self.links.append([nodes, [['bonds', ['TA', '+TB'], ['1', '0.35', kb], []]], [],
+                               [['TA', canon_attrs(dict(wide, order=0, atomname='TC'))]], [], []])
+            self.kinds.append('link')
+        self.has_ctx = True
+        chk.count('ff_macro_redefined_with_identical_lines')
+
     def variables_section(self):
         self.header('variables')
         for _ in range(self.rng.randint(1, 2)):
@@ -545,11 +664,17 @@ class Gen:
         self.serial += 1
         name = r.choice(['ALA', 'GLY', 'LYS', 'B%d' % self.serial, 'B%d' % self.serial])
         self.header('moleculetype')
-        self.emit('%s %d' % (name, r.randint(0, 3)), blockname=name)
+        nrexcl = r.randint(0, 3)
+        # `name, nrexcl = line.split()`: no form feed here (str.split would cut there)
+        self.emit('%s %s' % (name, spell_int(r, nrexcl).replace('\x0c', '')), blockname=name)
         atoms = r.sample(['BB', 'SC1', 'SC2', 'SC3', 'C1', 'N', 'CA', 'O1'], r.randint(2, 5))
         self.header('atoms')
+        acols = []
         for i, a in enumerate(atoms):
-            cols = [str(i + 1), r.choice(['P5', 'C1', 'Qd']), str(r.randint(1, 3)), name, a, str(i + 1)]
+            atype, resid, cg = r.choice(['P5', 'C1', 'Qd']), r.randint(1, 3), r.choice([i + 1, i + 1, 10 + i])
+            acols.append([repr_j(atype), repr_j(name), repr_j(resid), repr_j(cg)])
+            cols = [str(i + 1), atype, spell_int(r, resid), name, a, spell_int(r, cg)]
+            chk.count('ff_int_spelled_' + ('plain' if cols[2] == str(resid) and cols[5] == str(cg) else 'fancy'))
             if r.random() < 0.7:
                 cols.append(r.choice(['0', '1.0', '-1', '0.5']))
                 if r.random() < 0.4:
@@ -570,7 +695,8 @@ class Gen:
                     self.meta_line(secmeta, sect)
                 k = n if n is not None else r.randint(1, 3)
                 chosen = [r.choice(atoms) for _ in range(k)]
-                refs = [str(atoms.index(a) + 1) if r.random() < 0.4 else a for a in chosen]
+                refs = [(r.choice(['%d', '%d', '%d', '0%d', '00%d']) % (atoms.index(a) + 1)) if r.random() < 0.4 else a
+                        for a in chosen]
                 written, expected = self.params(sect)
                 delim = ['--'] if (n is None or r.random() < 0.3) else []
                 mtoks, mexp = self.own_meta(secmeta, sect)
@@ -585,7 +711,7 @@ class Gen:
             self.header('edges')
             a, b = r.sample(atoms, 2)
             self.emit('%s %s' % (a, b))
-        self.blocks[name] = [name, atoms, inters]
+        self.blocks[name] = [name, atoms, inters, acols, nrexcl]
         self.kinds.append('block')
         self.has_ctx = True
 
@@ -618,6 +744,7 @@ class Gen:
         self.serial += 1
         nodes = collections.OrderedDict()    # key -> attrs expected
         inters, removed = [], []
+        non_edges, patterns, features = [], [], set()
         secmeta = {}
         all_nodes = {}
         name = None
@@ -699,19 +826,43 @@ class Gen:
                     used = as_loaded(attrs)
                     used.pop('order', None)
                     touch(key, atom, used, defaults={'PTM_atom': False} if kind == 'modification' else None)
-            elif k < 0.3 and kind == 'link' and self.rich:
-                self.header(r.choice(['features', 'patterns', 'non-edges', 'molmeta', 'citation']))
+            elif k < 0.3 and kind == 'link':
+                # what a link declares besides atoms and interactions; the link-wide attributes written under
+                # [ link ] apply to the partner atom of a non-edge (attributes of the line itself win)
+                self.header(r.choice(['features', 'patterns', 'non-edges', 'non-edges'] + (['molmeta', 'citation'] if self.rich else [])))
                 sect = self.lines[-1][1]['header']
-                if sect == 'features':
-                    self.emit('feat%d' % r.randint(0, 3))
-                elif sect == 'patterns':
-                    self.emit('BB +BB {"resname": "GLY"}')
-                elif sect == 'non-edges':
-                    self.emit('BB +SC1')
-                elif sect == 'molmeta':
-                    self.emit('flag true')
-                else:
-                    self.emit('ref%d' % r.randint(0, 5))
+                for _ in range(r.randint(1, 3) if sect in ('features', 'patterns', 'non-edges') else 1):
+                    if sect == 'features':
+                        fs = ['feat%d' % r.randint(0, 3) for _ in range(r.randint(1, 2))]
+                        self.emit(' '.join(fs))
+                        features.update(fs)
+                    elif sect == 'patterns':
+                        pat, texts = [], []
+                        for _ in range(r.randint(1, 3)):
+                            b, o, _extra = r.choice(abstract)
+                            ref = prefix_of(o) + b
+                            attrs = r.choice([None, None, {'resname': 'GLY'}, {'resname': 'ALA|GLY', 'x': 1}, {'atomname': 'Q'}])
+                            texts.append(ref + ((' ' + json.dumps(attrs)) if attrs else ''))
+                            pat.append([ref, canon_attrs(as_loaded(attrs or {}))])
+                        self.emit(' '.join(texts))
+                        patterns.append(pat)
+                    elif sect == 'non-edges':
+                        (b1, o1, e1), (b2, o2, e2) = r.choice(abstract), r.choice(abstract)
+                        t1, _used1 = self.render_atom(b1, o1, e1)
+                        if r.random() < 0.3:
+                            e2 = dict(e2, resname=r.choice(['GLY', 'SER|THR']))      # overrides the link-wide resname
+                        t2, used2 = self.render_atom(b2, o2, e2)
+                        want = dict(all_nodes)
+                        want.update(used2)
+                        want['order'] = o2
+                        want.setdefault('atomname', b2)
+                        self.emit('%s %s' % (t1, t2))
+                        non_edges.append([prefix_of(o1) + b1, canon_attrs(want)])
+                        chk.count('ff_non_edge_' + ('with_linkwide_attrs' if all_nodes else 'plain'))
+                    elif sect == 'molmeta':
+                        self.emit('flag true')
+                    else:
+                        self.emit('ref%d' % r.randint(0, 5))
             else:
                 delete = kind == 'link' and r.random() < 0.2
                 sect = r.choice(LINK_SECTIONS)
@@ -738,13 +889,14 @@ class Gen:
                     delim = ['--'] if (n is None or r.random() < 0.4) else []
                     mtoks, mexp = self.own_meta(secmeta, sect)
                     self.emit(' '.join(texts + delim + written + mtoks),
-                              linkinter=sect, natoms=n, nref=kk, delim=bool(delim))
+                              linkinter=sect, natoms=n, nref=kk, delim=bool(delim),
+                              first_key=None if delete else keys[0], first_base=chosen[0][0])
                     out_sect = 'impropers' if (sect == 'dihedrals' and not delete and expected
                                                and expected[0] == '2') else sect
                     (removed if delete else inters).append([out_sect, keys, expected, canon_attrs(mexp)])
         exp_nodes = [[k, canon_attrs(v)] for k, v in nodes.items()]
         if kind == 'link':
-            self.links.append([exp_nodes, inters, removed])
+            self.links.append([exp_nodes, inters, removed, non_edges, patterns, sorted(features)])
         else:
             self.mods[name] = [name, exp_nodes, inters]
         self.kinds.append(kind)
@@ -763,8 +915,10 @@ class Gen:
                 self.link_like('link')
             elif k < 0.8:
                 self.link_like('modification')
-            elif k < 0.92:
+            elif k < 0.9:
                 self.macros_section()
+            elif k < 0.95:
+                self.macro_twins()
             else:
                 self.citations_section()
             if r.random() < 0.2:
@@ -779,14 +933,15 @@ class Gen:
     def expected(self):
         def srt(inters):
             return sorted(inters, key=lambda x: x[0])     # stable: file order kept inside a section
-        blocks = [[b[0], b[1], srt(b[2])] for b in self.blocks.values()]
-        links = [[l[0], srt(l[1]), srt(l[2])] for l in self.links]
+        blocks = [[b[0], b[1], srt(b[2]), b[3], b[4]] for b in self.blocks.values()]
+        links = [[l[0], srt(l[1]), srt(l[2])] + l[3:] for l in self.links]
         mods = [[m[0], m[1], srt(m[2])] for m in self.mods.values()]
         return [blocks, links, mods]
 
 
 FAULTS = ['unknown_section', 'undefined_atom', 'duplicate_atom', 'unbalanced_braces', 'order_conflict', 'arity',
-          'index_zero', 'effector']
+          'index_zero', 'effector', 'bad_int', 'attr_conflict']
+BAD_INTS = ['1_', '_1', '1__0', '+', '-', '1.0', 'x', '0x1', '+-1', '1e2', '1_x', '--1']
 
 
 def inject(gen, fault, rng):
@@ -826,6 +981,37 @@ def inject(gen, fault, rng):
         if '{' in t.split(' ')[-1]:
             return None
         return [t for t, _ in L]
+    if fault == 'bad_int':
+        # a token that int() does not accept where a resid / charge group / nrexcl is read, or a reference that
+        # looks like a number but is not all digits (it is then looked up as an atom NAME, which does not exist)
+        c = idx(lambda t, tag: 'blockatom' in tag or 'blockname' in tag or ('blockinter' in tag and tag['nref'] >= 1))
+        if not c:
+            return None
+        i = rng.choice(c)
+        t, tag = L[i]
+        toks = t.split(' ')
+        if 'blockname' in tag:
+            toks[1] = rng.choice(BAD_INTS)
+        elif 'blockatom' in tag:
+            toks[rng.choice([2, 5])] = rng.choice(BAD_INTS)
+        else:
+            toks[rng.randrange(tag['nref'])] = rng.choice(['1_0', '+1', '1_', '-1', '1.0', '0x1'])
+        L[i] = (' '.join(toks), tag)
+        return [t for t, _ in L]
+    if fault == 'attr_conflict':
+        # a link interaction mentions an atom again with a different value for an attribute it already has
+        c = idx(lambda t, tag: 'linkinter' in tag and tag.get('first_key') is not None)
+        if not c:
+            return None
+        i = rng.choice(c)
+        t, tag = L[i]
+        key, base = tag['first_key'], tag['first_base']
+        sect = tag['linkinter']
+        n = tag['natoms'] if tag['natoms'] is not None else 2
+        other = ['%s {"atomname": "%s", "resname": "QQQ", "zz_attr": 1}' % (key, base)] + ['ZZ%d' % q for q in range(n - 1)]
+        again = ['%s {"zz_attr": 2}' % key] + ['ZZ%d' % q for q in range(n - 1)]
+        new = [(' '.join(other + ['--', '1']), {}), (' '.join(again + ['--', '1']), {})]
+        return [t for t, _ in L[:i + 1] + new + L[i + 1:]]
     if fault == 'index_zero':
         # known finding F-C13-4: the (1-based) atom index 0 in a block interaction
         c = idx(lambda t, tag: 'blockinter' in tag and tag['nref'] >= 1)
@@ -1049,7 +1235,8 @@ def run_ff():
                 errs += check_once_in_order(ls, ff)
                 if len(ff.links) != extra[0]:
                     errs.append('%d links loaded, %d declared' % (len(ff.links), extra[0]))
-                if extra[1] is not None and got != extra[1]:
+                # the corpus dumps were recorded without the atom columns / nrexcl of blocks
+                if extra[1] is not None and [[b[:3] for b in got[0]], [l[:3] for l in got[1]], got[2]] != extra[1]:
                     errs.append('loaded %s, declared %s' % (clip(got, 400), clip(extra[1], 400)))
         elif exp == 'observation':
             chk.count('observation_' + ('rejected' if ff is None else 'loaded'))
@@ -1181,6 +1368,92 @@ def run_ffdisp():
 
 
 # ----------------------------------------------------------------------------------------------
+# 7b. the base SectionLineParser (no finalize_section override) on a dispatch table of its own;
+#     ITPDirector._split_atoms_and_parameters as a component; the guards that no file can reach
+# ----------------------------------------------------------------------------------------------
+def run_base_components():
+    rng = chk.rng('base')
+    seen = []
+
+    class Bare(parser_utils.SectionLineParser):
+        COMMENT_CHAR = ';'
+
+        @parser_utils.SectionLineParser.section_parser('a')
+        @parser_utils.SectionLineParser.section_parser('a', 'b')
+        @parser_utils.SectionLineParser.section_parser('c')
+        @parser_utils.SectionLineParser.section_parser('c', 'b', 'd')
+        @parser_utils.SectionLineParser.section_parser('a', 'b', 'e')
+        def _h(self, line, lineno=0):
+            seen.append([list(self.section), line])
+
+        def _macros(self, line, lineno=0):     # keep the table to the five paths above + macros
+            seen.append([list(self.section), line])
+    table = sorted(list(p) for p in Bare.METH_DICT)
+    heads = ['a', 'b', 'c', 'd', 'e', 'x', 'macros']
+    cases = []
+    for _ in range(6000 if chk.thorough else 600):
+        cases.append([(0, rng.choice(heads)) if rng.random() < 0.6 else (1, rng.choice(['t1', 't2'])) for _ in range(rng.randint(0, 10))])
+    reqs = [line('basedisp', table, [[k, t] for k, t in seq]) for seq in cases]
+    for i, (seq, ln, mo) in enumerate(zip(cases, reqs, ask(reqs))):
+        del seen[:]
+        try:
+            list(Bare().parse(iter([('[ %s ]' % t) if k == 0 else t for k, t in seq])))
+            im = 'ok ' + enc(seen)
+        except (IOError, KeyError):
+            im = 'error'
+        errs = []
+        if im != 'error' and [t for _, t in seen] != [t for k, t in seq if k == 1]:
+            errs.append('content lines delivered %r, written %r' % (seen, seq))
+        chk.count('basedisp_' + im.split()[0])
+        chk.case('basedisp-%d' % i, ln, im, mo, errs, im != 'error' and len(seen) >= 2)
+    # _split_atoms_and_parameters(tokens, atom_idxs) with indices, bounded / open slices and an entry that is neither
+    d = ITPDirector(ForceField(name='verif'))
+    cases = [(['1', '2', '3'], [[9]]), (['1', '2'], [[0, 0], [9]]), ([], [[2, 0]])]
+    for _ in range(6000 if chk.thorough else 600):
+        toks = [str(rng.randint(1, 9)) for _ in range(rng.randint(0, 7))]
+        idxs, used = [], 0
+        for _ in range(rng.randint(1, 3)):      # disjoint, increasing (as every entry of atom_idxs is)
+            k = rng.random()
+            if k < 0.55:
+                idxs.append([0, used])
+                used += 1
+            elif k < 0.8:
+                w = rng.randint(1, 3)
+                idxs.append([1, used, used + w])
+                used += w
+            elif k < 0.93:
+                idxs.append([2, used])
+                break
+            else:
+                idxs.append([9])
+        cases.append((toks, idxs))
+    reqs = [line('itpsplit', t, ix) for t, ix in cases]
+    for i, ((toks, ix), ln, mo) in enumerate(zip(cases, reqs, ask(reqs))):
+        real = [e[1] if e[0] == 0 else slice(e[1], e[2]) if e[0] == 1 else slice(e[1], None) if e[0] == 2 else 'x' for e in ix]
+        try:
+            atoms, params = d._split_atoms_and_parameters(collections.deque(toks), real)
+            im = 'ok %s %s' % (enc([a[0] for a in atoms]), enc(list(params)))
+        except (IOError, IndexError):
+            im = 'error'
+        errs = []
+        if any(e[0] == 9 for e in ix) and im != 'error' and not any(e[0] == 2 for e in ix[:[e[0] for e in ix].index(9)]):
+            errs.append('an atom_idxs entry that is neither an index nor a slice was accepted')
+        chk.count('itpsplit_' + im.split()[0])
+        chk.case('itpsplit-%d' % i, ln, im, mo, errs, True)
+    # guards no file can reach (table theorems delete_sections_only_in_links / itp_idx_kinds_known): the code
+    # still has to raise when called that way
+    for ctype, ctx in (('block', vermouth.molecule.Block()), ('modification', vermouth.molecule.Modification())):
+        try:
+            ffinput._base_parser(collections.deque(['A', 'B', '1']), ctx, context_type=ctype, section='bonds', natoms=2, delete=True)
+            im = 'accepted'
+        except IOError:
+            im = 'error'
+        chk.count('delete_outside_link_' + im)
+        chk.case('delete-outside-link-' + ctype, '_base_parser(delete=True, context_type=%r)' % ctype, im, None,
+                 [] if im == 'error' else ['removal of an interaction outside a link was accepted'], True)
+
+
+# ----------------------------------------------------------------------------------------------
 # 8. ITP files
 # ----------------------------------------------------------------------------------------------
 ITP_SECTIONS = ['bonds', 'angles', 'dihedrals', 'constraints', 'pairs', 'exclusions', 'virtual_sitesn',
@@ -1195,10 +1468,14 @@ def gen_itp(rng):
         lines.append('#define FLEXIBLE')
     for b in range(rng.randint(1, 4)):
         name = rng.choice(['MOL%d' % b, 'MOL%d' % b, 'PROT'])
-        lines += ['[ moleculetype ]', '%s %d' % (name, rng.randint(1, 3)), '[ atoms ]']
+        nrexcl = rng.randint(1, 3)
+        lines += ['[ moleculetype ]', '%s %s' % (name, spell_int(rng, nrexcl).replace('\x0c', '')), '[ atoms ]']
         n = rng.randint(2, 6)
+        acols = []
         for i in range(n):
-            cols = [str(i + 1), 'P5', '1', name, rng.choice(['BB', 'SC1', 'SC2']), str(i + 1)]
+            resid = rng.randint(1, 2)
+            cols = [spell_int(rng, i + 1), 'P5', spell_int(rng, resid), name, rng.choice(['BB', 'SC1', 'SC2']), spell_int(rng, i + 1)]
+            acols.append([repr_j('P5'), repr_j(name), repr_j(resid), repr_j(i + 1)])
             if rng.random() < 0.6:
                 cols.append('0.0')
             lines.append(' '.join(cols) + rng.choice(['', ' ; c']))
@@ -1232,7 +1509,7 @@ def gen_itp(rng):
                     toks = atoms + params
                 lines.append(' '.join(toks))
                 inters.append([sect, [str(int(a) - 1) for a in atoms], params, list(meta) if meta else []])
-        blocks[name] = [name, [str(i) for i in range(n)], sorted(inters, key=lambda x: x[0])]
+        blocks[name] = [name, [str(i) for i in range(n)], sorted(inters, key=lambda x: x[0]), acols, nrexcl]
     if meta is not None:
         lines.append('#endif')
     return lines, list(blocks.values())
@@ -1264,9 +1541,11 @@ def run_itp():
             elif k < 0.6:
                 j = [q for q, t in enumerate(bad) if t.startswith('[ atoms ]')][0]
                 bad.insert(j + 2, bad[j + 1])
-            elif k < 0.65:
-                bad += ['[ bonds ]', rng.choice(['0 1 1', '1 99 1', 'BB 1 1'])]
-            elif k < 0.85:
+            elif k < 0.7:
+                refs = ['0 1 1', '1 99 1', 'BB 1 1', '+1 2 1', '1_0 1 1', '00 1 1', '-1 1 1', '1 +BB 1']
+                bad += ['[ bonds ]', refs[(i // 3) % len(refs)]]
+                chk.count('itp_fault_reference')
+            elif k < 0.87:
                 # too few tokens for the arity of a fixed-arity section, in the first or in a later moleculetype
                 short = rng.choice([('bonds', '1'), ('angles', '1 2'), ('dihedrals', '1 2 1'), ('constraints', '2'),
                                     ('pairs', '1'), ('virtual_sites2', '1 2'), ('virtual_sites3', '1 2 1'),
@@ -1297,7 +1576,8 @@ def run_itp():
         errs = []
         try:
             read_itp(ls, ff)
-            got = [[k, [str(n) for n in b.nodes], canon_inters_meta(b.interactions)] for k, b in ff.blocks.items()]
+            got = [[k, [str(n) for n in b.nodes], canon_inters_meta(b.interactions), atom_cols(b), b.nrexcl]
+                   for k, b in ff.blocks.items()]
             im = enc(got)
         except Exception as e:
             got, im = None, 'error'
@@ -1396,6 +1676,8 @@ def run_maps():
                 tos = [('!' if rng.random() < 0.2 else '') + rng.choice(atoms['cg']) for _ in range(rng.randint(0, 4))]
                 m[a] = tos
                 lines.append('%d %s %s%s' % (k + 1, a, ' '.join(tos), rng.choice(['', ' ; c'])))
+                if rng.random() < 0.15:
+                    lines.append(rng.choice(['', '   ', '; only a comment', '\t']))     # skipped lines
             if not simple and rng.random() < 0.2:
                 lines += ['[ chiral ]', 'CB CA N C']
             decl[res] = m
@@ -1623,13 +1905,22 @@ run_prefix()
 run_atoms()
 run_weights()
 run_subst()
+run_pyint()
 run_ffdisp()
+run_base_components()
 run_ff()
 run_itp()
 run_maps()
 c13_mapping.run_mapping(chk, ask)
+_t = time.time()
+c13_dir.run_ffdir(chk, ask, Gen, inject, FAULTS, dump_ff, load_ff, repr_j, pending)
+chk.extra['ffdir_wall_s'] = round(time.time() - _t, 2)
+_t = time.time()
+c13_dir.run_mapdir(chk, ask, backmap_library)
+chk.extra['mapdir_wall_s'] = round(time.time() - _t, 2)
 if chk.thorough:
     run_shipped()
+    c13_dir.run_shipped_dirs(chk, ask, dump_ff, repr_j, backmap_library)
 chk.extra['pending_findings'] = PENDING
 if PENDING:
     chk.notes.append('genuine defects observed and reported, not in known_findings.json (model transcribes them, '
